@@ -1,8 +1,78 @@
+/-
+  C16: address parsing and option normalisation are total and exact.
+  `Gnet.Gen.norm*` and `Gnet.Gen.determineEventLoops` are REGENERATED from gnet.go /
+  client_unix.go on every run; `none` = panic.
+  Only property theorems and non-vacuity examples live here; helper lemmas are in
+  Gnet/Proofs/Options.lean. Statements are never weakened to make a proof pass.
+-/
 import Gnet.Model.Options
+import Gnet.Proofs.Arith
+import Gnet.Proofs.Options
 namespace Gnet.Props.C16
 open Gnet Gnet.Options
 
-theorem dispatch_url_error (u : UrlParts) (h : u.err = true) : dispatch u = .urlError := by
-  simp [dispatch, h]
+/-- Read/write buffer capacity (server): 64 KiB for requests ≤ 0, 1 KiB for 1..1024, otherwise the
+    smallest power of two not smaller than the request; a panic only when no such int exists. -/
+theorem norm_read_cap_server (x : BitVec 64) :
+    (x.toInt ≤ 0 → Gen.normReadCapServer x 65536#64 = some 65536#64) ∧
+    (0 < x.toInt → x.toInt ≤ 1024 → Gen.normReadCapServer x 65536#64 = some 1024#64) ∧
+    (1024 < x.toInt → x.toInt ≤ 2 ^ 62 → ∃ r, Gen.normReadCapServer x 65536#64 = some r ∧
+        Proofs.Arith.IsPow2 r.toInt ∧ x.toInt ≤ r.toInt ∧ 1024 ≤ r.toInt ∧
+        ∀ p : Int, Proofs.Arith.IsPow2 p → x.toInt ≤ p → r.toInt ≤ p) ∧
+    (2 ^ 62 < x.toInt → Gen.normReadCapServer x 65536#64 = none) :=
+  Proofs.Options.norm_read_cap_server x
+
+/-- the other three switches are the same function -/
+theorem norm_caps_agree (x mx : BitVec 64) :
+    Gen.normWriteCapServer x mx = Gen.normReadCapServer x mx ∧
+    Gen.normReadCapClient x mx = Gen.normReadCapServer x mx ∧
+    Gen.normWriteCapClient x mx = Gen.normReadCapServer x mx :=
+  Proofs.Options.norm_caps_agree x mx
+
+/-- edge-triggered chunk: a positive request is rounded up to a power of two and switches
+    edge-triggered mode on; otherwise 1 MiB when edge-triggered mode is on -/
+theorem chunk_spec (chunk : BitVec 64) (et : Bool) :
+    (0 < chunk.toInt → chunk.toInt ≤ 2 ^ 62 → ∃ r, chunkNorm chunk et = some (r, true) ∧
+        Gen.CeilToPowerOfTwo chunk = some r) ∧
+    (chunk.toInt ≤ 0 → et = true → chunkNorm chunk et = some (1048576#64, true)) ∧
+    (chunk.toInt ≤ 0 → et = false → chunkNorm chunk et = some (chunk, false)) :=
+  Proofs.Options.chunk_spec chunk et
+
+/-- number of event loops: clamped to 1..256 according to Multicore / NumEventLoop -/
+theorem evloops_spec (mc : Bool) (nel ncpu : BitVec 64) (hcpu : 1 ≤ ncpu.toInt) :
+    ∃ r, Gen.determineEventLoops mc nel ncpu = some r ∧ 1 ≤ r.toInt ∧ r.toInt ≤ 256 ∧
+      (0 < nel.toInt → r.toInt = min nel.toInt 256) ∧
+      (nel.toInt ≤ 0 → mc = true → r.toInt = min ncpu.toInt 256) ∧
+      (nel.toInt ≤ 0 → mc = false → r.toInt = 1) :=
+  Proofs.Options.evloops_spec mc nel ncpu hcpu
+
+/-- gnet's dispatch on the parsed URL is total: an error, or one of the seven schemes with a
+    non-empty endpoint -/
+theorem dispatch_total (u : UrlParts) :
+    dispatch u = .urlError ∨ dispatch u = .invalidAddress ∨ dispatch u = .unsupportedProtocol ∨
+    ∃ s e, dispatch u = .ok s e ∧ (s ∈ ipSchemes ∨ s = "unix") ∧ e ≠ "" :=
+  Proofs.Options.dispatch_total u
+
+/-- tcp*/udp*: the endpoint is returned exactly as `url.Parse` delivered the host -/
+theorem dispatch_ip (u : UrlParts) (he : u.err = false) (hs : u.scheme ∈ ipSchemes)
+    (hh : u.host ≠ "") (hp : u.path = "") : dispatch u = .ok u.scheme u.host :=
+  Proofs.Options.dispatch_ip u he hs hh hp
+
+theorem dispatch_unix (u : UrlParts) (he : u.err = false) (hs : u.scheme = "unix") (hj : u.joined ≠ "") :
+    dispatch u = .ok "unix" u.joined :=
+  Proofs.Options.dispatch_unix u he hs hj
+
+/-- the documented errors -/
+theorem dispatch_errors (u : UrlParts) (he : u.err = false) :
+    (u.scheme = "" → dispatch u = .invalidAddress) ∧
+    (u.scheme ∈ ipSchemes → (u.host = "" ∨ u.path ≠ "") → dispatch u = .invalidAddress) ∧
+    (u.scheme = "unix" → u.joined = "" → dispatch u = .invalidAddress) ∧
+    (u.scheme ≠ "" → u.scheme ∉ ipSchemes → u.scheme ≠ "unix" → dispatch u = .unsupportedProtocol) :=
+  Proofs.Options.dispatch_errors u he
+
+-- non-vacuity
+example : Gen.normReadCapServer 5000#64 65536#64 = some 8192#64 := by decide
+example : Gen.determineEventLoops true 0#64 16#64 = some 16#64 := by decide
+example : dispatch ⟨false, "tcp6", "[fe80::1%eth0]:80", "", "[fe80::1%eth0]:80"⟩ = .ok "tcp6" "[fe80::1%eth0]:80" := by decide
 
 end Gnet.Props.C16
